@@ -292,14 +292,14 @@ class _DateLocaleParser:
                 parse_method=parse_method,
                 settings=self._settings,
             )
-            self._settings.DATE_ORDER = _order
             return DateData(
                 date_obj=date_obj,
                 period=period,
             )
-        except ValueError:
-            self._settings.DATE_ORDER = _order
+        except (OverflowError, ValueError):
             return None
+        finally:
+            self._settings.DATE_ORDER = _order
 
     def _try_given_formats(self):
         if not self.date_formats:
